@@ -137,7 +137,7 @@ def c17_case(draw):
 
 def budget(tier):
     if tier == 'quick':
-        return dict(examples=2400, wall=100)
+        return dict(examples=4000, wall=100)
     return dict(examples=60000, wall=1500)
 
 
